@@ -46,6 +46,14 @@ PROPS = {
                     'preserved by every executed event for every hook behaviour; tie = fact tables + lock-step on the real Maintainer in the real Environment.',
         assumptions=['needed capacities and durations are non-negative', 'hooks reach the maintainer only through create_work_order',
                      'try_working_requests modelled as one left-to-right pass (nothing is appended during the loop); checked by the lock-step']),
+    'C18': dict(
+        vfile='Props/C18.v', ties=['Tie/TieEnv.v', 'Tie/TieSched.v'],
+        families=[('sched', 1500, 40000, 'small', 'large')],
+        rule='F_sched scenarios: timetables of 1-5 states (repeated states, integer and fractional durations, zero durations), cyclic / not / argument omitted, '
+             'register/unregister before the run and from other events during it; non-trivial = more state changes than timetable entries and >= 2 action calls; distinct by scenario text',
+        explanation='Registration, per-change action calls and the timetable arithmetic proved for every timetable; system invariant: one pending transition at the prescribed time; '
+                    'tie = fact tables (incl. the is_cyclical=True default) + lock-step on the real ActionScheduler.',
+        assumptions=['timetable non-empty (asserted by the constructor)', 'actions only log (they do not re-enter the scheduler)']),
 }
 
 LEVELS = {
@@ -79,9 +87,15 @@ LEVELS = {
              'cost once, FINISH_WORK at start+duration, hooks once per event; system invariant: exactly one live event per order in progress.',
         design_ref='DESIGN.md section 8, C12', technique='Coq proof (state-machine invariant + system invariant over the event queue) + lock-step correspondence with Maintainer',
         note='Trusted: Coq kernel, pyfacts.py, extraction + OCaml driver, Python harness.'),
+    'C18': dict(
+        text='Machine-checked Coq theorems: registration dictionary semantics; at every state change exactly one action call per registered object in registration order with the right arguments; '
+             'k-th change at t0 + sum of the first k durations with state k-1 (mod n when cyclic), period = total duration, non-cyclic schedules stop in their last state; '
+             'system invariant over the event queue (one pending transition at the prescribed time).',
+        design_ref='DESIGN.md section 8, C18', technique='Coq proof (induction over state changes + system invariant) + lock-step correspondence with ActionScheduler',
+        note='Trusted: Coq kernel, pyfacts.py, extraction + OCaml driver, Python harness.'),
 }
 
 NOT_APPLICABLE = [
     dict(property_id=p, reason='check under construction in this round (model layer not yet built); see DESIGN.md section 12 build order')
-    for p in ['C02', 'C03', 'C04', 'C05', 'C06', 'C08', 'C11', 'C13', 'C14', 'C15', 'C16', 'C17', 'C18', 'C19', 'C20']
+    for p in ['C02', 'C03', 'C04', 'C05', 'C06', 'C08', 'C11', 'C13', 'C14', 'C15', 'C16', 'C17', 'C19', 'C20']
 ]
